@@ -43,6 +43,25 @@ def handle (cmd : String) (args : List String) : Option String :=
                                             | none => false,
                             ignoreErr := pl.map (·.1) }
       some s!"M ign={b2s (isIgnored conf rx file ty)} special={b2s (isSpecialCheck conf [2, 3, 10, 11, 12])} S shown={b2s (shown s rx file ty)} specialOff={b2s (specialOff s)}"
+  | "confrules", [rules, fileh, ty] =>
+    -- `confrules <hexfile:rxbit=t.t.t;…> <filehex> <ty>`: is (file, ty) silenced by the per-file type rules
+    -- of luahelper.json (IgnoreFileErrTypes) under the model (`fromJson` + `isIgnored`, everything else on)?
+    match ty.toNat? with
+    | none => some "bad-op"
+    | some ty =>
+      let file := strOfHex fileh
+      let rl : List (String × Bool × List Nat) := if rules == "-" then [] else
+        (splitOn rules ';').map fun it =>
+          match splitOn it '=' with
+          | [fb, ts] =>
+            (match splitOn fb ':' with
+             | [h, b] => (strOfHex h, b == "1", (splitOn ts '.').filterMap String.toNat?)
+             | _ => ("", false, []))
+          | _ => ("", false, [])
+      let rx : String → String → Bool := fun p _ => (rl.find? (·.1 == p)).map (·.2.1) |>.getD false
+      let conf := fromJson 1 [] [] (rl.map fun r => (r.1, r.2.2))
+      let conf := { conf with errDirs := [] }
+      some s!"R ign={b2s (isIgnored conf rx file ty)}"
   | _, _ => none
 
 end LuaHelper.ConfOps
